@@ -1,0 +1,28 @@
+//go:build verif
+// +build verif
+
+package raft
+
+// Verification hooks (build tag "verif"). With the tag off these are no-ops,
+// see verif_off.go. The hook functions are assigned by the verification
+// harness (package-internal test files); nothing in the library sets them.
+
+// verifHook receives named observation/crash/ordering points.
+var verifHook func(point string, args ...interface{})
+
+func verifPoint(point string, args ...interface{}) {
+	if h := verifHook; h != nil {
+		h(point, args...)
+	}
+}
+
+// verifReplHook, when it returns true, makes replication.runLoop return
+// immediately (the harness then drives the replication's methods itself).
+var verifReplHook func(r *replication, req *appendReq) bool
+
+func verifReplPark(r *replication, req *appendReq) bool {
+	if h := verifReplHook; h != nil {
+		return h(r, req)
+	}
+	return false
+}
